@@ -587,10 +587,10 @@ def rules(fx, rep):
 def main(tier, t0):
     return common.standard_main(
         PROP, tier, t0, rules, 'other',
-        'Abstract interpretation of the 4 point deserializers over (bit 7 of the first byte) x (caller\'s flag), all other input unknown: first read is '
-        'exactly the compressed size via read_exact from the caller\'s reader; the flag test depends on bit 7 only (known-bits); mismatch -> error before '
-        'any further read; match -> [read the remaining size_u - size_c bytes,] copy exactly the stream bytes into an encoding of matching size and call the '
-        'CHECKED decoder; every I/O and decode error reaches Err; no panic edge; sizes from size(). Serializers write exactly the encoder\'s bytes with write_all. '
-        'Fr / Fq12: 1 / 12 big-endian reads each range-checked with from_repr, no unwrap, slot order writer == reader. NOT decided: value round trip.',
+        'Interpretation over a byte-provenance model of the streams (serdesmodel.py): for the 4 point types x (bit 7 of the first stream byte) x (caller\'s flag), '
+        'whatever buffers / helpers / impl delegation the code uses: only read_exact on the caller\'s reader; the flag test is decided by bit 7 (known bits); mismatch -> Err; '
+        'match -> exactly size bytes consumed and exactly those stream bytes, in order, given to the CHECKED decoder of the right type; Ok iff the decoder accepts; no panic '
+        'edge. Serializers: the caller\'s writer receives exactly the encoder\'s bytes through write_all, write errors -> Err. Fr / Fq12: read k (32 / 48 bytes) range-checked by '
+        'from_repr fills slot k, every failure -> Err, exact byte stream written in reader order. NOT decided: value round trip.',
         ['rustc MIR', 'std::io::Read::read_exact / Write::write_all contracts; checked decoders (C04)'],
         ['bit-7/flag enumeration exhaustive; remaining input unconstrained'])
